@@ -158,6 +158,48 @@ def check(spec, rng):
                     viol.append({'id': 'one-sided-distributed-load-wrong-on-a-pulse', 'loaded_wire': which + 1, 'pulse': p.idx + 1,
                                  'junction': p.geo[0] is not p.geo[1], 'expected': str(exp), 'observed': str(got)})
                     break
+    # two joined wires of different conductivity, the later wire's load registered first: every conductor half carries
+    # the internal impedance of ITS OWN wire
+    if len(spec['wires']) > 1:
+        m7 = model(spec)
+        ws = list(m7.geo)
+        sigs = {id(ws[0]): sig, id(ws[1]): sig / 37.0}
+        for w in reversed(ws[:2]):
+            m7.register_load(Skin_Effect_Load(w, sigs[id(w)]), None, w.tag)
+        m7.fix_distributed_loads()
+        # (the solver evaluates the loads in registration order: the result must not depend on that order)
+        m8 = model(spec)
+        ws8 = list(m8.geo)
+        for w, w7 in zip(ws8[:2], ws[:2]):
+            m8.register_load(Skin_Effect_Load(w, sigs[id(w7)]), None, w.tag)
+        m8.fix_distributed_loads()
+        z7, z8 = feedz(m7), feedz(m8)
+        if abs(z7 - z8) > 1e-9 * abs(z8):
+            viol.append({'id': 'skin-effect-loads-depend-on-their-registration-order', 'expected': str(z8), 'observed': str(z7)})
+        m7 = model(spec)
+        ws = list(m7.geo)
+        sigs = {id(ws[0]): sig, id(ws[1]): sig / 37.0}
+        for w in reversed(ws[:2]):
+            m7.register_load(Skin_Effect_Load(w, sigs[id(w)]), None, w.tag)
+        m7.fix_distributed_loads()
+        for p in reversed(list(m7.pulses)):
+            exp = 0j
+            for i, g in enumerate(p.geo):
+                if id(g) not in sigs or p.ground[i]:
+                    continue
+                sg = sigs[id(g)]
+                k = np.sqrt(-1j * omg * mu_0 * sg)
+                kr = k * g.r_orig
+                bb = 1j if abs(kr) >= 110 else jv(0, kr) / jv(1, kr)
+                exp += p.segs[i].seg_len / 2 * k / (2 * np.pi * g.r_orig * sg) * bb
+            ls = [l for l in m7.loads if p in l.pulses]
+            got = sum(l.impedance(f, p) for l in ls)
+            if ls:
+                got = got / len(ls)
+            if abs(got - exp) > 1e-9 * max(abs(exp), 1e-12):
+                viol.append({'id': 'skin-effect-load-uses-another-wires-conductivity', 'pulse': p.idx + 1,
+                             'expected': str(exp), 'observed': str(got)})
+                break
     for v in viol:
         v['input'] = spec
     return viol
